@@ -206,10 +206,11 @@ def gromacs_loop_native():
     data the way the rest of infretis recomputes it (EngineBase.calculate_order: velocities * -1 iff vel_rev)."""
     import numpy as np
     from infretis.classes.engines import gromacs as G
-    from infretis.classes.orderparameter import Velocity
+    from infretis.classes.orderparameter import Distance, Velocity
     from infretis.classes.path import Path
     from infretis.classes.system import System
-    frames = [{"x": np.array([[0.1 * k, 0, 0], [1, 0, 0]], float), "v": np.array([[0.5 + 0.1 * k, 0, 0], [0, 0, 0]], float), "box": np.eye(3) * 3} for k in range(4)]
+    # every frame has its own box (the periodic distance depends on it) and its own velocities
+    frames = [{"x": np.array([[0.1 * k, 0, 0], [2.0, 0, 0]], float), "v": np.array([[0.5 + 0.1 * k, 0, 0], [0, 0, 0]], float), "box": np.eye(3) * (3.0 - 0.4 * k)} for k in range(4)]
 
     class FakeRunner:
         def __init__(self, *a, **k):
@@ -234,16 +235,16 @@ def gromacs_loop_native():
     saved = G.GromacsRunner
     G.GromacsRunner = FakeRunner
     try:
-        for reverse in (False, True):
+        for reverse, order in ((False, Velocity(0, dim="x")), (True, Velocity(0, dim="x")), (False, Distance((0, 1), periodic=True))):
             e = object.__new__(G.GromacsEngine)
             e.exe_dir, e.subcycles, e.ext, e.input_files, e.mdrun = "/var/tmp", 1, "g96", {"input": "x.mdp"}, "gmx mdrun -s {} -deffnm {} -c {}"
-            e.order_function = Velocity(0, dim="x")
+            e.order_function = order
             e._modify_input = lambda *a, **k: None
             e._execute_grompp = lambda *a, **k: {"tpr": "t.tpr"}
             e._remove_files = lambda *a, **k: None
             e.get_energies = lambda *a, **k: {"kinetic en.": np.zeros(10), "potential": np.zeros(10)}
             e._remove_gromacs_backup_files = lambda *a, **k: None
-            e._read_configuration = lambda fn: (frames[0]["x"].copy(), frames[0]["v"].copy(), np.array([3.0, 3, 3]), None)
+            e._read_configuration = lambda fn: (frames[0]["x"].copy(), frames[0]["v"].copy(), np.diag(frames[0]["box"]).copy(), None)
             s = System()
             s.config, s.vel_rev = ("init.g96", 0), reverse  # EngineBase.propagate sets vel_rev = reverse before calling
             p = Path(maxlen=10)
@@ -251,7 +252,7 @@ def gromacs_loop_native():
             for k, pt in enumerate(p.phasepoints):
                 s2 = System()
                 s2.config, s2.vel_rev = pt.config, pt.vel_rev
-                e._read_configuration = lambda fn, k=k: (frames[k]["x"].copy(), frames[k]["v"].copy(), np.array([3.0, 3, 3]), None)
+                e._read_configuration = lambda fn, k=k: (frames[k]["x"].copy(), frames[k]["v"].copy(), np.diag(frames[k]["box"]).copy(), None)
                 rec = e.calculate_order(s2)
                 if abs(rec[0] - pt.order[0]) > 1e-12 or pt.config[1] != k or pt.vel_rev != reverse:
                     return {"function": "GromacsEngine._propagate_from", "reverse": reverse, "frame": k, "stored_order": list(pt.order), "recomputed_from_its_own_frame": list(rec),
